@@ -154,6 +154,10 @@ func (ms *Modules) resolveIdentities() []error {
 
 	var errs []error
 
+	// The dictionary is built from scratch: what an earlier call of Process
+	// filed may no longer be reachable in this one.
+	ms.typeDict.identities.dict = map[string]resolvedIdentity{}
+
 	// Across all modules, read the identity values that have been extracted
 	// from them, and compile them into a "fully resolved" map that means that
 	// we can look them up based on the 'real' prefix of the module and the
